@@ -19,7 +19,8 @@ RULE = ("ALL terminal behaviours within the bound: start state in {INIT, "
         "(0x20, 0xff20), driven through the full real stack "
         "(Terminal.to_operational -> roundtrip -> sendloop -> simulated bus); "
         "plus 3..31 terminals with random behaviours brought up concurrently "
-        "through one master; the ordered AL-control writes and AL-status reads seen by the "
+        "through one master; plus single transitions that take 999, 1000, "
+        "1001, 2500 (thorough: up to 65537) status polls; the ordered AL-control writes and AL-status reads seen by the "
         "terminal model and the call's outcome are checked by a trace "
         "automaton of the statement. a case = one behaviour; non-trivial = "
         "at least one state request or an error")
